@@ -154,7 +154,8 @@ def weak_passwords():
 SERVER_VERSION = b"RFB 003.008\n"
 SERVER_FORMAT = bytes([32, 32, 0, 255, 0, 255, 0, 255, 0, 255, 0, 8, 16, 0, 0, 0])
 REASON = b"password check failed!"
-EXT_TYPES = {2: 16, 3: 30, 4: 2, 5: 1}
+DEFAULT_EXT_TYPES = {2: 16, 3: 30, 4: 2, 5: 1}
+EXT_TYPES = DEFAULT_EXT_TYPES
 
 
 def hx(b):
@@ -235,6 +236,10 @@ def parse_script(lines):
             ops.append(dict(op="send", c=int(p[1]), eof=p[2] == "1", b=unhx(p[3])))
         elif p[0] == "des":
             ops.append(dict(op="des", pw=unhx(p[1]), blk=unhx(p[2])))
+        elif p[0] == "types" and len(p) == 5:
+            ops.append(dict(op="types", tys=[int(x) for x in p[1:5]]))
+        elif p[0] == "setfile" and len(p) == 3:
+            ops.append(dict(op="setfile", s=int(p[1]), content=unhx(p[2])))
         else:
             ops.append(dict(op="??", raw=l))
     return ops
@@ -294,6 +299,7 @@ def oracle_case(lines, impl_lines):
     findings = []
     screens, conns = [], []          # conns: dict(s, rev, sent=[(opidx, bytes)], obs=[(opidx, conn-obs)])
     ext_reg_times = {}               # k -> list of (opidx, registered?)
+    EXT_TYPES = dict(DEFAULT_EXT_TYPES)   # security types of the application handler objects of this case
     it = iter(impl_lines)
     crashed_at = None
     for idx, o in enumerate(ops):
@@ -320,7 +326,13 @@ def oracle_case(lines, impl_lines):
             continue
         flags, cobs = parse_obs(line)
         if o["op"] == "screen":
+            o["scr"]["timeline"] = [(idx, o["scr"].get("content"))]
             screens.append(o["scr"])
+        elif o["op"] == "types":
+            EXT_TYPES = dict(zip((2, 3, 4, 5), o["tys"]))
+        elif o["op"] == "setfile":
+            if o["s"] < len(screens) and screens[o["s"]]["mode"] == "file":
+                screens[o["s"]]["timeline"].append((idx, o["content"]))
         elif o["op"] in ("reg", "unreg"):
             ext_reg_times.setdefault(o["k"], []).append((idx, o["op"] == "reg"))
         elif o["op"] == "conn":
@@ -349,6 +361,17 @@ def oracle_case(lines, impl_lines):
         scr = screens[c["s"]]
         pws = screen_passwords(scr)
         has_pw = scr["mode"] != "none"
+
+        def pws_at(opidx, scr=scr):
+            """the passwords the screen accepts when op number opidx is processed"""
+            if scr["mode"] != "file":
+                return screen_passwords(scr)
+            content = None
+            for (k, ct) in scr["timeline"]:
+                if k <= opidx:
+                    content = ct
+            p0 = passwd_from_file(content or b"")
+            return [] if p0 is None else [p0]
         protected = has_pw and not c["rev"]
         primary = 2 if protected else 1
         cs = b"".join(b for _, b in c["sent"])
@@ -414,6 +437,22 @@ def oracle_case(lines, impl_lines):
             d["offered"] = offered
             if primary not in offered:
                 add("primary-type-not-offered", "list %s lacks the required type %d" % (offered, primary))
+            # application handlers: exactly those the application has registered (and not unregistered)
+            # so far must be advertised (rfb.h: unregistered types "won't be available for any new client")
+            app_now = sorted(EXT_TYPES[k] for k, ev in ext_reg_times.items()
+                             if [r for i, r in ev if i < d["offer_op"]][-1:] == [True])
+            rest = list(offered)
+            if primary in rest:
+                rest.remove(primary)
+            rest = sorted(x for x in rest)
+            if rest != app_now and (3 - primary) not in [x for x in rest if x not in app_now]:
+                missing = [x for x in app_now if rest.count(x) < app_now.count(x)]
+                extra = [x for x in rest if rest.count(x) > app_now.count(x)]
+                add("app-handlers-advertised-wrong",
+                    "the application has registered handlers of types %s, the list sent is %s (%s)" %
+                    (app_now, offered, "; ".join(filter(None, ["registered but not advertised: %s" % sorted(set(missing)) if missing else "",
+                                                                "advertised although unregistered: %s" % sorted(set(extra)) if extra else ""]))),
+                    kind="handler-list", missing=bool(missing), extra=bool(extra))
             n_ext_foreign = sum(1 for k, ev in ext_reg_times.items() if EXT_TYPES.get(k) == 3 - primary and
                                 any(r and i < d["offer_op"] for i, r in ev))
             if offered.count(3 - primary) > n_ext_foreign:
@@ -456,6 +495,7 @@ def oracle_case(lines, impl_lines):
                 continue
             resp = cs[cp:cp + 16]
             cp += 16
+            pws = pws_at(sent_op(cp - 1) if sent_op(cp - 1) is not None else len(ops))
             valid_idx = [i for i, pw in enumerate(pws) if vnc_encrypt(pw, chal) == resp]
             weak = any(is_weak_key(vnc_key(pw)) for pw in pws)
             result = ss[sp:sp + 4]
@@ -594,6 +634,13 @@ class Planner:
 
     def passwords(self, s):
         return screen_passwords(self.screens[s])
+
+    def setfile(self, s, content):
+        self.lines.append("setfile %d %s" % (s, hx(content)))
+        self.screens[s]["content"] = content
+
+    def types(self, tys):
+        self.lines.append("types %d %d %d %d" % tuple(tys))
 
     def rand_chal(self):
         r = self.rng.random()
@@ -842,6 +889,11 @@ def gen_interleave(rng, k, weak_pool, with_ext=False):
         honest = rng.random() < 0.45
         progs.append(dict(s=s, rev=rev, ver=ver, honest=honest, ci=None, done=False))
     if with_ext:
+        if rng.random() < 0.5:
+            # arbitrary security types of the application handlers: TightVNC (16), other registered
+            # numbers, collisions with the built-in types, 0 and 255
+            pool = [16, 16, 30, 5, 6, 17, 18, 19, 20, 77, 129, 200, 255, 0, 1, 2]
+            pl.types([rng.choice(pool) for _ in range(4)])
         for _ in range(rng.randint(0, 2)):
             pl.lines.append("reg %d" % rng.randint(2, 5))
     steps = 0
@@ -915,6 +967,76 @@ def gen_f1_patterns(rng, k, weak_pool):
         if pl.conns[ci]["st"] == "init":
             pl.send(ci, b"\1")
     return pl.lines
+
+
+def gen_filechange(rng, k, weak_pool):
+    """password-FILE screens whose file is rewritten between connections, and between the challenge
+    and the response of a connection (rfbDefaultPasswordCheck reads the file at every check)"""
+    pl = Planner(rng, k, "file-change")
+    pa, pb = rng.sample(NORMAL_PWS + weak_pool[:4], 2)
+    s = pl.screen("file", content=passwd_file_content(pa[:8]))
+    other = pl.screen("none") if rng.random() < 0.4 else None
+    vers = [b"RFB 003.003\n", b"RFB 003.007\n", b"RFB 003.008\n"]
+
+    def handshake_until_auth():
+        ci = pl.conn(s, False, rng.choice(vers))
+        if pl.conns[ci]["st"] == "sec":
+            pl.send(ci, b"\2")
+        return ci
+
+    def new_content():
+        r = rng.random()
+        if r < 0.7:
+            return passwd_file_content(pb[:8])
+        if r < 0.85:
+            return bytes(rng.randrange(256) for _ in range(rng.randint(0, 7)))      # unreadable: too short
+        return passwd_file_content(pa[:8]) + b"tail"
+
+    a = handshake_until_auth()
+    if rng.random() < 0.5:
+        pl.send(a, pl.response(a, "correct"))
+        if pl.conns[a]["st"] == "init":
+            pl.send(a, b"\1")
+        pl.setfile(s, new_content())
+    else:
+        # the file changes while the client holds its challenge
+        pl.setfile(s, new_content())
+        pl.send(a, pl.response(a, rng.choice(["correct", "correct", "random"]), pw=rng.choice([pa, pb, None])))
+        if pl.conns[a]["st"] == "init":
+            pl.send(a, b"\1")
+    if other is not None:
+        o = pl.conn(other, False, b"RFB 003.008\n")
+        pl.send(o, b"\1")
+    for pw in rng.sample([pa, pb, pa, pb], 3):
+        ci = handshake_until_auth()
+        if pl.conns[ci]["st"] == "auth":
+            pl.send(ci, pl.response(ci, "correct", pw=pw))
+        if pl.conns[ci]["st"] == "init":
+            pl.send(ci, b"\1")
+        if rng.random() < 0.3:
+            pl.setfile(s, new_content() if rng.random() < 0.6 else passwd_file_content(pa[:8]))
+    return pl.lines
+
+
+def gen_fvo_sweep(rng, k0):
+    """rfbCheckPasswordByList: authPasswdFirstViewOnly at EVERY position (-1 .. n+1) of lists of 1..4
+    passwords (also with the same password twice), the client proving each password in turn"""
+    cases = []
+    base = [b"alpha", b"bravo", b"charlie", b"delta"]
+    lists = [base[:n] for n in (1, 2, 3, 4)] + [[b"alpha", b"bravo", b"alpha"], [b"same", b"same"]]
+    for pws in lists:
+        for fvo in range(-1, len(pws) + 2):
+            for idx in range(len(pws)):
+                pl = Planner(rng, k0 + len(cases), "fvo-sweep")
+                s = pl.screen("list", pws=pws, fvo=fvo)
+                ci = pl.conn(s, False, rng.choice([b"RFB 003.003\n", b"RFB 003.008\n"]))
+                if pl.conns[ci]["st"] == "sec":
+                    pl.send(ci, b"\2")
+                pl.send(ci, pl.response(ci, "correct", pw=pws[idx]))
+                if pl.conns[ci]["st"] == "init":
+                    pl.send(ci, b"\1")
+                cases.append(pl.lines)
+    return cases
 
 
 def gen_des(rng, k, weak_pool):
@@ -991,6 +1113,9 @@ def gen_cases(ctx):
         cases.append(gen_f1_patterns(rng, len(cases), weak_pool))
     for _ in range(40 * scale):
         cases.append(gen_des(rng, len(cases), weak_pool))
+    for _ in range(150 * scale):
+        cases.append(gen_filechange(rng, len(cases), weak_pool))
+    cases += gen_fvo_sweep(rng, len(cases))
     cases = [c for c in cases if script_ok(c)]
     for i, c in enumerate(cases):
         p = c[0].split(" ", 2)
@@ -1033,9 +1158,33 @@ def run_impl(ctx, cases, cexe):
     return vlib.run_driver([cexe, ctx.scratch], script, timeout=3000)
 
 
+VARIANT = {"single": "0"}      # which rfbUnregisterSecurityHandler the library has (probe_variant)
+
+PROBE = ["case 0 probe", "screen 1 1 70 none", "reg 2", "reg 3", "unreg 3", "conn 0 0 0 " + b"RFB 003.008\n".hex()]
+
+
+def probe_variant(ctx, cexe):
+    """Both list-handling variants are mirrored (cfg_unreg_single) and have the same theorems: find out
+    which one the library implements.  reg e2; reg e3; unreg e3: the code as of 39c3ee3 also drops e2
+    (recursion on ->next), notes/fix_C05_3.diff keeps it, so type 16 is (not) advertised."""
+    rc, co, ce = run_impl(ctx, [PROBE], cexe)
+    cs = vlib.split_cases(co)
+    single = "0"
+    try:
+        _, conns = parse_obs(cs[0][1][-1])
+        out = conns[0]["out"]
+        n = out[12]
+        if 16 in out[13:13 + n]:
+            single = "1"
+    except Exception:
+        pass
+    VARIANT["single"] = single
+    return single
+
+
 def run_model(ctx, cases, mexe, legacy=False):
     script = "\n".join("\n".join(c) for c in cases) + "\n"
-    exe = [mexe, "1", "1"] if legacy else [mexe]
+    exe = [mexe, "1", "1", "0"] if legacy else [mexe, "0", "0", VARIANT["single"]]
     return vlib.run_driver(exe, script, timeout=3000, unlimited_stack=True)
 
 
@@ -1057,6 +1206,7 @@ def handshake_signature(lines, impl_lines):
 
 def check(ctx):
     cexe, mexe, proof_ok = build(ctx)
+    single = probe_variant(ctx, cexe)
     cases = gen_cases(ctx)
     rc1, cout, cerr = run_impl(ctx, cases, cexe)
     rc2, mout, merr = run_model(ctx, cases, mexe)
@@ -1096,7 +1246,9 @@ def check(ctx):
              "output length) vector, version tag) among cases where some connection got past the version exchange",
         samples=[cases[i] for i in (0, len(cases) // 3, 2 * len(cases) // 3, len(cases) - 1)],
         input_distribution=hist, cases=len(cases), correspondence_mismatches=len(mismatches),
-        oracle_failing_cases=len(failing), not_compared_unmodelled=unmodelled, exhaustive=False)
+        oracle_failing_cases=len(failing), not_compared_unmodelled=unmodelled, exhaustive=False,
+        list_handling_variant=("notes/fix_C05_3.diff semantics (cfg_unreg_single = true)" if single == "1" else
+                               "recursion on ->next as of 39c3ee3 (cfg_unreg_single = false)"))
     ctx.assumptions += [
         "external: libgcrypt DES = FIPS 46 DES (cross-checked by the 'des' ops and by every authentication of the run)",
         "first bytes of a connection are empty or start with 'RFB ' (otherwise rfbNewClient takes the WebSocket/TLS path, not modelled)",
@@ -1117,15 +1269,16 @@ def check(ctx):
     def replay_text(lines, co, mo, ce=""):
         _, lo, _ = run_model(ctx, [lines], mexe, legacy=True)
         return ("script:\n" + "\n".join(lines) + "\n\nimplementation output:\n" + co + ce[-1200:] +
-                "\nmodel output (fixed code = notes/fix_C05_*.diff applied):\n" + mo +
-                "\nmodel output (code before the fixes):\n" + lo +
-                "\nimplementation behaves like: %s\n" % ("fixed model" if co == mo else ("unfixed model" if co == lo else "neither")))
+                "\nmodel output (baseline cfgF: fixes 39c3ee3 + fa69878; list handling variant %s):\n" % VARIANT["single"] + mo +
+                "\nmodel output (cfg_legacy = code before the fixes, regression witness):\n" + lo +
+                "\nimplementation behaves like: %s\n" % ("baseline model" if co == mo else
+                                                           ("the code before 39c3ee3/fa69878 (regression)" if co == lo else "neither")))
 
     # 1. property violations on the implementation (oracle), grouped by symptom
     seen = {}
     for idx, fs in failing:
         for f in fs:
-            key = (f.symptom, f.feat.get("kind"), f.feat.get("cause"), f.feat.get("weak"))
+            key = (f.symptom, f.feat.get("kind"), f.feat.get("cause"), f.feat.get("weak"), f.feat.get("missing"), f.feat.get("extra"))
             seen.setdefault(key, []).append((idx, f))
     for key, lst in sorted(seen.items(), key=lambda kv: str(kv[0])):
         idx, f = min(lst, key=lambda t: len(cases[t[0]]))
@@ -1137,29 +1290,12 @@ def check(ctx):
                 return any(g.symptom == sym and g.features() == ft for g in oracle_case(sub, il))
             lines = shrink(lines, pred)
         il, ml, co, mo, ce = run1(lines)
-        fs2 = [g for g in oracle_case(lines, il) if g.symptom == f.symptom] or [f]
+        fs2 = [g for g in oracle_case(lines, il) if g.features() == feat] or \
+              [g for g in oracle_case(lines, il) if g.symptom == f.symptom] or [f]
         ctx.violation("C05 violated on the implementation: %s - %s (%d cases)" % (f.symptom, fs2[0].text, len(lst)),
                       fs2[0].features(), replay_text(lines, co, mo, ce))
     # 2. model and implementation differ where the property predicate holds
     unexplained = [(idx, d) for idx, d, has_f in mismatches if not has_f]
-    if unexplained:
-        # does the implementation behave exactly like the mirror of the code BEFORE the fixes there?
-        sub = [cases[idx] for idx, _ in unexplained]
-        _, lout, _ = run_model(ctx, sub, mexe, legacy=True)
-        lc = vlib.split_cases(lout)
-        still = []
-        for k, (idx, d) in enumerate(unexplained):
-            il = cc[idx][1] if idx < len(cc) else []
-            if k < len(lc) and lc[k][1] == il:
-                lines = cases[idx]
-                il2, ml2, co, mo, ce = run1(lines)
-                if ctx.violation("model (fixed code) and implementation differ on %d cases where the implementation equals the "
-                                 "mirror of the code before the fixes and no C05 predicate fails" % 1,
-                                 {"kind": "unfixed-code-behaviour"}, replay_text(lines, co, mo, ce)):
-                    still.append((idx, d))
-            else:
-                still.append((idx, d))
-        unexplained = still
     if unexplained:
         idx, d = unexplained[0]
         def pred2(sub):
@@ -1186,12 +1322,13 @@ def replay(ctx, path):
     body = txt.split("script:\n", 1)[1].split("\n\n", 1)[0]
     lines = [l for l in body.split("\n") if l.strip()]
     cexe, mexe, proof_ok = build(ctx)
+    probe_variant(ctx, cexe)
     r1, co, ce = run_impl(ctx, [lines], cexe)
     r2, mo, me = run_model(ctx, [lines], mexe)
     _, lo, _ = run_model(ctx, [lines], mexe, legacy=True)
     cs = vlib.split_cases(co)
     il = cs[0][1] if cs else []
-    print("implementation:\n" + co + "model (fixed code):\n" + mo + "model (code before the fixes):\n" + lo)
+    print("implementation:\n" + co + "model (baseline):\n" + mo + "model (code before the fixes):\n" + lo)
     fs = oracle_case(lines, il)
     ctx.coverage.update(evaluations=len(lines) - 1, distinct_nontrivial=0, rule="replay", samples=[lines])
     for f in fs:
